@@ -9,7 +9,7 @@ import (
 func init() {
 	register(&PropSpec{
 		ID:        "C30",
-		Pkgs:      []string{"./internal/app"},
+		Pkgs:      []string{"./internal/app", "./internal/infra/backup"},
 		Technique: "static analysis: module-wide atomic-operation confinement + SSA value-identity CAS rule (CompareAndSwap(loaded, new) dominated by new > loaded) + edge-dominance on the return paths",
 		Explain: "Decides the premises of the uniqueness argument for nodeMessageIDs: (1) the floor atomic is only ever mutated by CompareAndSwap (no Store/Add/Swap anywhere in the loaded packages), (2) every CAS swaps from the value just Load-ed to a value proved strictly greater on a dominating branch (same SSA values), (3) Next returns only on the CAS-success edge and returns exactly the value it installed, (4) SetFloor reports success only if the floor already covers the restored maximum, or the natural clock probe is strictly above it and (already covered or installed by CAS). From (1)-(3) every returned id was installed by a successful CAS from a strictly smaller floor, so ids returned by concurrent callers are pairwise distinct and increasing in linearisation order; from (4) no id at or below the restored maximum is issued after SetFloor succeeded. NOT decided: Snowflake clock behaviour, uint64(int64) conversion of generated ids, that callers treat a SetFloor error as fatal.",
 		Run:       c30,
@@ -60,4 +60,11 @@ func c30(c *Ctx) {
 		"floor <= sync/atomic.Uint64.Load(*) || *snowflake.Node.Generate(*) > floor",
 	)
 	c.Min("R2-cas", 2)
+
+	// R5: the restore fence is wired to SetFloor and a refused fence fails the activation
+	// (the staged-restore node service must propagate the allocator's error to its caller).
+	run := c.Fn("internal/infra/backup.StagedRestoreNodeService.Run")
+	c.ErrPropagates("R5-fence", run, "dyn:s.messageIDFloor*")
+	c.ConfineStores("R5-fence", "internal/infra/backup.StagedRestoreNodeService.messageIDFloor", false, "internal/infra/backup.StagedRestoreNodeService.SetMessageIDFloor")
+	c.CallShape("R5-fence", c.Fn("internal/app.App.wireBackup"), "internal/infra/backup.StagedRestoreNodeService.SetMessageIDFloor", "*SetMessageIDFloor(*, closure:internal/app.SetFloor$bound)")
 }
